@@ -770,6 +770,12 @@ def relerr(a, b):
     s = float(np.max(np.abs(b))) or 1.0
     return float(np.max(np.abs(a - b))) / s
 
+def masserr(a, b, scale):
+    """max |a-b| in units of `scale` (= theta * max|spectrum|: what the result would be at total weight one)"""
+    a = np.asarray(a, dtype=float); b = np.asarray(b, dtype=float)
+    if a.shape != b.shape or not np.all(np.isfinite(a)): return float('inf')
+    return float(np.max(np.abs(a - b))) / (scale or 1.0)
+
 QTOL1 = 2e-5      # 1-D quad (default tolerances) vs distribution functions
 QTOL2 = 4e-3      # 2-D: the code asks quad/dblquad for epsabs=1e-4, epsrel=1e-3
 
@@ -789,11 +795,12 @@ def o_int1d(chk, dadi, inp):
     exp = theta * exp
     chk.l3(('int1d', inp['pdf'], ext, n))
     chk.stat('int1d:%s' % inp['pdf'])
-    e = relerr(got, exp)
+    sc = abs(theta) * float(np.max(np.abs(S)))
+    e = masserr(got, exp, sc)
     if e > QTOL1:
         which = ''
-        if ext and relerr(got, exp - theta * wN * np.asarray(c.neu_spec, dtype=float)) <= QTOL1: which = ':neutral-tail-missing'
-        elif ext and relerr(got, exp - theta * wD * S[0]) <= QTOL1: which = ':lethal-tail-missing'
+        if ext and masserr(got, exp - theta * wN * np.asarray(c.neu_spec, dtype=float), sc) <= QTOL1: which = ':neutral-tail-missing'
+        elif ext and masserr(got, exp - theta * wD * S[0], sc) <= QTOL1: which = ':lethal-tail-missing'
         chk.fail('Cache1D.integrate:quadrature' + which, 'Cache1D.integrate differs from theta*(trapz(pdf*spectra) + tails): rel err %.3g' % e,
                  dict(inp, got=small(got), expected=small(exp)))
     # linear in theta
@@ -808,7 +815,7 @@ def o_nosel1d(chk, dadi, inp):
     got = data_of(c.integrate(params, None, sel, theta, None))
     W = my_trapz(np.asarray(sel(-ng, params), dtype=float), ng) + masses_1d(inp['pdf'], params, 0.0, -ng[-1]) + masses_1d(inp['pdf'], params, -ng[0], np.inf)
     chk.l3(('nosel1d', inp['pdf'], len(ng)))
-    e = relerr(got, theta * W * S0)
+    e = masserr(got, theta * W * S0, abs(theta) * float(np.max(np.abs(S0))))
     if e > QTOL1:
         chk.fail('Cache1D.integrate:no-selection', 'with selection-neutral spectra the result is not theta*S0*(total weight): rel err %.3g' % e,
                  dict(inp, got=small(got), expected=small(theta * W * S0), total_weight=W))
@@ -962,9 +969,9 @@ def well_conditioned(chk, name, params, ng, sel, what):
     ones = np.ones((len(ng), len(ng)))
     z = np.zeros((len(ng), len(ng)))
     a, pa = nine_regions(ng, ones, z, Mc); b, pb = nine_regions(ng, ones, z, Mq)
-    bad = max(abs(pa[k] - pb[k]) for k in pa)
-    if not np.isfinite(bad) or bad > 1e-3:
-        chk.stat('%s:skipped(scipy quad off by %s)' % (what, '>1e-2' if bad > 1e-2 else '>1e-3'))
+    bad = sum(abs(pa[k] - pb[k]) for k in pa)
+    if not np.isfinite(bad) or bad > 2e-3:
+        chk.stat('%s:skipped(scipy quad off by %s)' % (what, '>1e-2' if bad > 1e-2 else '>2e-3'))
         return None
     chk.stat('%s:well-conditioned' % what)
     return Mc
@@ -986,11 +993,12 @@ def o_int2d(chk, dadi, inp):
     chk.l3(('int2d', inp['pdf'], len(params), ext, n))
     chk.stat('int2d:%s' % inp['pdf'])
     tol = QTOL2 if ext else 1e-9
-    e = relerr(got, exp)
+    sc = abs(theta) * float(np.max(np.abs(S))) if ext else float(np.max(np.abs(exp)))
+    e = masserr(got, exp, sc)
     if e > tol:
         key = 'Cache2D.integrate:quadrature'
         for nm, v in parts.items():
-            if ext and nm != 'interior' and relerr(got, exp - theta * v) <= tol:
+            if ext and nm != 'interior' and masserr(got, exp - theta * v, sc) <= tol:
                 key += ':%s-missing' % nm
                 break
         chk.fail(key, 'Cache2D.integrate differs from theta*(interior double trapezoid + 4 edges + 4 corners): rel err %.3g' % e,
@@ -1012,10 +1020,10 @@ def o_nosel2d(chk, dadi, inp):
     Wimpl = float(np.mean(got / (theta * S0)))
     chk.l3(('nosel2d', inp['pdf'], len(params), n, round(parts['corner(D,D)'], 1)))
     chk.stat('nosel2d:lethal-corner-mass>%g' % (0.1 if parts['corner(D,D)'] > 0.1 else 0.01 if parts['corner(D,D)'] > 0.01 else 0))
-    e = relerr(got, theta * W * S0)
+    e = masserr(got, theta * W * S0, abs(theta) * float(np.max(np.abs(S0))))
     if e > QTOL2:
         key = 'Cache2D.integrate:no-selection'
-        if abs(Wimpl + parts['corner(D,D)'] - W) <= QTOL2 * max(W, 1): key += ':(lethal,lethal)-corner-missing'
+        if abs(Wimpl + parts['corner(D,D)'] - W) <= QTOL2: key += ':(lethal,lethal)-corner-missing'
         chk.fail(key, 'with selection-neutral spectra the result is theta*S0*%.4f, the total weight of the nine regions is %.4f '
                  '(mass beyond the grid in both coordinates: %.4f)' % (Wimpl, W, parts['corner(D,D)']),
                  dict(inp, got=small(got), expected=small(theta * W * S0), total_weight_impl=Wimpl, total_weight=W, contributions=parts))
